@@ -2,6 +2,8 @@
    case   = VTup [src; VList stages; action]
    src    = VTup [VInt 0; VList xs; VInt n] (parallelize xs n)  |  VTup [VInt 1; VList parts; VInt 0] (explicit partitions)
    stage  = VTup [VInt kind; VInt code; VInt flag]      action = VTup [VInt a; VInt a1; VInt a2; VInt a3]
+            (a sample stage with flag >= 2 is the real sampler at a boundary fraction; its certain outcome is [code])
+   action = VTup [VInt 13; VList actions; _; _] is a history: log and result become lists, one entry per action
    result = VTup [VList (calls logged after each definition step); VList log; action result; partitioning]
    Elements are ints or codes of None / '' / False / () / [] (NONE ... LST).
    The function library below is the Gallina twin of FN/PRED/GFN/MFN/HFN/OP in py/c06.py. *)
@@ -61,7 +63,10 @@ Definition lib_hfn (c : Z) : option (list Z -> list Z) :=
   end.
 Definition lib_op (c : Z) : option (Z -> Z -> Z) :=
   match c with
-  | 0 => Some (lift2 Z.add) | 1 => Some (lift2 Z.max) | 2 => Some (lift2 Z.sub) | 3 => Some (fun _ b => b) | _ => None
+  | 0 => Some (lift2 Z.add) | 1 => Some (lift2 Z.max) | 2 => Some (lift2 Z.sub) | 3 => Some (fun _ b => b)
+  | 4 => Some (fun a b => if sp a then b else a)
+  | 5 => Some (fun a b => ((a mod 1009) * 3 + b mod 1009) mod 1009)
+  | _ => None
   end.
 
 Definition omap {A B : Type} (f : A -> B) (o : option A) : option B :=
@@ -144,13 +149,50 @@ Definition enc_result (r : result) : val :=
   | RErr s => VErr s
   end.
 
+(* every member of the stats family (mean, max, ... = code 8 with a1 > 0) is one pass through stats(); only the
+   count of stats() itself is compared, the other values are C17's business *)
+Definition enc_query_result (act : val) (r : result) : val :=
+  match act with
+  | VTup [VInt 8; VInt a1; _; _] => if a1 =? 0 then enc_result r else VBool true
+  | _ => enc_result r
+  end.
+
+Fixpoint dec_queries (l : list val) : option (list query) :=
+  match l with
+  | [] => Some []
+  | v :: r =>
+      match dec_query v, dec_queries r with
+      | Some q, Some qs => Some (q :: qs)
+      | _, _ => None
+      end
+  end.
+
+Fixpoint enc_results (acts : list val) (rs : list (list event * result)) : list val :=
+  match acts, rs with
+  | a :: acts', (_, r) :: rs' => enc_query_result a r :: enc_results acts' rs'
+  | _, _ => []
+  end.
+
 Definition run (c : val) : val :=
   match c with
+  | VTup [src; VList sts; VTup [VInt 13; VList acts; _; _]] =>
+      (* a history: several actions on the same dataset object; claimed for uncached lineages only *)
+      match dec_src src, dec_stages sts, dec_queries acts with
+      | Some parts, Some stages, Some qs =>
+          if uncached stages then
+            let '(ndef, rs) := run_program_history stages qs parts in
+            VTup [VList (map (fun k => VInt (Z.of_nat k)) ndef);
+                  VList (map (fun lr => VList (map enc_event (fst lr))) rs);
+                  VList (enc_results acts rs); vparts (map (map VInt) parts)]
+          else VBad
+      | _, _, _ => VBad
+      end
   | VTup [src; VList sts; act] =>
       match dec_src src, dec_stages sts, dec_query act with
       | Some parts, Some stages, Some q =>
           let '(ndef, (log, res)) := run_program stages q parts in
-          VTup [VList (map (fun k => VInt (Z.of_nat k)) ndef); VList (map enc_event log); enc_result res; vparts (map (map VInt) parts)]
+          VTup [VList (map (fun k => VInt (Z.of_nat k)) ndef); VList (map enc_event log); enc_query_result act res;
+                vparts (map (map VInt) parts)]
       | _, _, _ => VBad
       end
   | _ => VBad
